@@ -1575,9 +1575,15 @@ class ActiveSelectorBasic:
         if transition_compared_to_match == 2:
             return
         elif transition_compared_to_match in [0, 1]:
-            _add_transition_sorted(results['transitions'], transition)
             if transition_compared_to_match == 0:
+                # A transition exactly at the start of the ZoneMatch takes the
+                # startDateTime of the match, like the shifted prior (see
+                # ActiveSelectorInPlace.select_active_transitions()).
+                transition = transition.copy()
+                transition.originalTransitionTime = transition.transitionTime
+                transition.transitionTime = match.startDateTime
                 results['startTransitionFound'] = True
+            _add_transition_sorted(results['transitions'], transition)
         else:  # transition_compared_to_match < 0:
             # If a Transition exists on the start bounary of the ZoneMatch,
             # then we don't need to search for the latest prior.
@@ -1615,7 +1621,12 @@ class ActiveSelectorInPlace:
         for transition in transitions:
             prior = self._process_transition(match, transition, prior)
 
-        if prior and prior.transitionTime < match.startDateTime:
+        # Shift the latest prior (or the transition exactly at the start of the
+        # match) to the startDateTime of the match, as the C++
+        # ExtendedZoneProcessor does. Its wall time was expanded with the
+        # offsets of the previous *candidate*, which need not be the offsets in
+        # force at the end of the previous ZoneEra.
+        if prior:
             prior.originalTransitionTime = prior.transitionTime
             prior.transitionTime = match.startDateTime
 
